@@ -19,6 +19,7 @@ import (
 	"os"
 	"path/filepath"
 	"sync"
+	"sync/atomic"
 	"time"
 
 	"github.com/ethereum/go-ethereum/crypto"
@@ -172,10 +173,10 @@ func main() {
 		st.Instances, st.Probes, st.MaxProbes, st.DistinctSeqs, st.Mismatches, st.Errors, st.Panics)
 }
 
-func runInstance(w *trace.Writer, st *stats, seqs map[string]bool, local, remote *side, h, a, rlen int, rname string, seq byte) {
+// attempt runs the real findCommonAncestor once over a fresh pipe.
+func attempt(local, remote *side, h, a int, seq byte, try byte) (anc uint32, err error, panicked any, probes []*probe, hungUp bool) {
 	le, re := pipe.New()
 	var mu sync.Mutex
-	var probes []*probe
 	le.Tap = func(code uint64, payload []byte) { // local -> remote
 		if code != proto.MsgGetBlockIDByNumber {
 			return
@@ -213,23 +214,40 @@ func runInstance(w *trace.Writer, st *stats, seqs map[string]bool, local, remote
 		mu.Unlock()
 	}
 	served := make(chan error, 1)
+	var closedByUs atomic.Bool
 	go func() {
-		served <- remote.comm.Protocols()[0].Run(p2p.NewPeer(discover.NodeID{0x10, seq, byte(h), byte(a)}, "local", nil), re)
+		rerr := remote.comm.Protocols()[0].Run(p2p.NewPeer(discover.NodeID{0x10, seq, byte(h), byte(a), try}, "local", nil), re)
+		// the protocol handler returned: the p2p server drops the connection
+		if !closedByUs.Load() {
+			hungUp = true
+		}
+		re.Close()
+		served <- rerr
 	}()
 
 	ctx, cancel := context.WithTimeout(context.Background(), 20*time.Second)
-	var (
-		anc      uint32
-		err      error
-		panicked any
-	)
 	func() {
 		defer func() { panicked = recover() }()
 		anc, err = comm.VerifFindCommonAncestor(ctx, local.repo, le, uint32(h))
 	}()
 	cancel()
+	closedByUs.Store(true)
 	le.Close()
 	<-served
+	mu.Lock()
+	defer mu.Unlock()
+	return
+}
+
+func runInstance(w *trace.Writer, st *stats, seqs map[string]bool, local, remote *side, h, a, rlen int, rname string, seq byte) {
+	// the remote is an honest real Communicator: an error is an observation on the real code. One retry rules out load.
+	anc, err, panicked, probes, hungUp := attempt(local, remote, h, a, seq, 0)
+	attempts := 1
+	if err != nil && panicked == nil {
+		anc, err, panicked, probes, hungUp = attempt(local, remote, h, a, seq, 1)
+		attempts = 2
+	}
+	var mu sync.Mutex
 
 	w.Emit(trace.Ev{"e": "AStart", "H": h, "A": a, "R": rlen})
 	bestChain := local.repo.NewBestChain()
@@ -253,7 +271,7 @@ func runInstance(w *trace.Writer, st *stats, seqs map[string]bool, local, remote
 		errs = fmt.Sprintf("panic: %v", panicked)
 		st.Panics++
 	}
-	w.Emit(trace.Ev{"e": "AResult", "anc": anc, "err": errs, "np": np})
+	w.Emit(trace.Ev{"e": "AResult", "anc": anc, "err": errs, "np": np, "attempts": attempts, "hungUp": hungUp})
 
 	st.Instances++
 	st.Probes += np
